@@ -179,11 +179,8 @@ impl MT101 {
             let field_23e = if parser.detect_field("23E") {
                 let mut codes = Vec::new();
                 while parser.detect_field("23E") {
-                    if let Ok(field) = parser.parse_field::<Field23E>("23E") {
-                        codes.push(field);
-                    } else {
-                        break;
-                    }
+                    let field = parser.parse_field::<Field23E>("23E")?;
+                    codes.push(field);
                 }
                 if !codes.is_empty() { Some(codes) } else { None }
             } else {
@@ -198,8 +195,8 @@ impl MT101 {
             if let Some(variant) = parser.detect_variant_optional("50") {
                 match variant.as_str() {
                     "C" | "L" => {
-                        instructing_party_tx = parser
-                            .parse_optional_variant_field::<Field50InstructingParty>("50")?;
+                        instructing_party_tx =
+                            parser.parse_optional_variant_field::<Field50InstructingParty>("50")?;
                     }
                     _ => {}
                 }
